@@ -44,6 +44,20 @@ func maskTrimSites(p *Program, fns []*ssa.Function) []trimSite {
 			if !ok || !types.Identical(sl.Elem(), types.Typ[types.Uint64]) {
 				return
 			}
+			// store form: words[last] = mask(n&63) into a slice made with (n+63)>>6 words — the last
+			// word holds 64 bits when n is a multiple of 64 and mask(0) = 0 wipes them
+			if t := e.eval(st.Val); t.op == "mask" && len(t.args) == 1 && strings.HasPrefix(t.args[0].String(), "and(63,") {
+				a := t.args[0].String()
+				nTerm := strings.TrimSuffix(strings.TrimPrefix(a, "and(63,"), ")")
+				if mk, ok := ia.X.(*ssa.MakeSlice); ok {
+					lt := e.eval(mk.Len).String()
+					// the length term mentions 63+n shifted by 6 (conversions aside)
+					if strings.Contains(lt, "shr:s(add(63,"+nTerm+"),6)") || strings.Contains(lt, "shr:u(add(63,"+nTerm+"),6)") {
+						out = append(out, trimSite{fn: f, st: st, n: nTerm, guarded: maskGuarded(e, f, b, a)})
+					}
+				}
+				return
+			}
 			bo, ok := st.Val.(*ssa.BinOp)
 			if !ok || bo.Op != token.AND {
 				return
@@ -69,34 +83,39 @@ func maskTrimSites(p *Program, fns []*ssa.Function) []trimSite {
 				return
 			}
 			nTerm := strings.TrimSuffix(strings.TrimPrefix(a, "and(63,"), ")")
-			// guard: dominated by the non-zero side of a test of (n & 63) against 0
-			guarded := false
-			for _, blk := range f.Blocks {
-				iff, ok := lastInstr(blk).(*ssa.If)
-				if !ok {
-					continue
-				}
-				c, ok := iff.Cond.(*ssa.BinOp)
-				if !ok || (c.Op != token.NEQ && c.Op != token.EQL && c.Op != token.GTR) {
-					continue
-				}
-				x, y := e.eval(c.X).String(), e.eval(c.Y).String()
-				if !((x == a && y == "0") || (y == a && x == "0")) {
-					continue
-				}
-				nz := 0
-				if c.Op == token.EQL {
-					nz = 1
-				}
-				s := blk.Succs[nz]
-				if len(s.Preds) == 1 && s.Dominates(b) {
-					guarded = true
-				}
-			}
+			guarded := maskGuarded(e, f, b, a)
 			out = append(out, trimSite{fn: f, st: st, n: nTerm, guarded: guarded})
 		})
 	}
 	return out
+}
+
+// maskGuarded: block b is dominated by the non-zero side of a test of the term a (= n&63) against 0.
+func maskGuarded(e *evaluator, f *ssa.Function, b *ssa.BasicBlock, a string) bool {
+	guarded := false
+	for _, blk := range f.Blocks {
+		iff, ok := lastInstr(blk).(*ssa.If)
+		if !ok {
+			continue
+		}
+		c, ok := iff.Cond.(*ssa.BinOp)
+		if !ok || (c.Op != token.NEQ && c.Op != token.EQL && c.Op != token.GTR) {
+			continue
+		}
+		x, y := e.eval(c.X).String(), e.eval(c.Y).String()
+		if !((x == a && y == "0") || (y == a && x == "0")) {
+			continue
+		}
+		nz := 0
+		if c.Op == token.EQL {
+			nz = 1
+		}
+		s := blk.Succs[nz]
+		if len(s.Preds) == 1 && s.Dominates(b) {
+			guarded = true
+		}
+	}
+	return guarded
 }
 
 func checkMaskTrim(p *Program, r *Report, rule string, fns []*ssa.Function) {
@@ -107,7 +126,7 @@ func checkMaskTrim(p *Program, r *Report, rule string, fns []*ssa.Function) {
 		ord[s.fn]++
 		r.Func(shortFn(s.fn))
 		r.Check(s.guarded, fmt.Sprintf("in-place trim #%d in %s", ord[s.fn], shortFn(s.fn)), p.Pos(s.st.Pos()), "under a test that "+s.n+"&63 != 0",
-			"the word is ANDed in place with mask("+s.n+"&63) without a dominating test that "+s.n+"&63 != 0: when "+s.n+" is a multiple of 64 the mask is 0 and the whole last word is cleared")
+			"the word is ANDed in place with (or overwritten by) mask("+s.n+"&63) without a dominating test that "+s.n+"&63 != 0: when "+s.n+" is a multiple of 64 the mask is 0 and the whole last word is cleared")
 	}
 	if len(sites) == 0 {
 		r.Note("%s: no in-place trim of a bitmap word with mask(n&63) in the analysed functions", rule)
@@ -123,7 +142,7 @@ func controlMaskTrim(fx *Program, r *Report, rule string) {
 	for _, tc := range []struct {
 		fn   string
 		want bool
-	}{{"AllOnesWrong", true}, {"AllOnesRight", false}} {
+	}{{"AllOnesWrong", true}, {"AllOnesRight", false}, {"StoreWrong", true}, {"StoreRight", false}, {"StoreSpare", false}} {
 		f := pkg.Func(tc.fn)
 		if f == nil {
 			r.Control(rule, "masktrim."+tc.fn, false, "function not found")
@@ -136,6 +155,6 @@ func controlMaskTrim(fx *Program, r *Report, rule string) {
 				bad++
 			}
 		}
-		r.Control(rule, "masktrim."+tc.fn, len(sites) == 1 && (bad > 0) == tc.want, fmt.Sprintf("expected flagged=%v: %d trim site(s), %d unguarded", tc.want, len(sites), bad))
+		r.Control(rule, "masktrim."+tc.fn, (len(sites) == 1 || tc.fn == "StoreSpare") && (bad > 0) == tc.want, fmt.Sprintf("expected flagged=%v: %d trim site(s), %d unguarded", tc.want, len(sites), bad))
 	}
 }
